@@ -8,6 +8,7 @@ use serde_json::{json, Value};
 pub fn dispatch(name: &str, params: &Value) -> Option<Value> {
     let f: fn(&Value) -> Value = match name {
         "noop" => noop,
+        "cw3_kernel" => cw3_kernel,
         _ => return None,
     };
     Some(f(params))
@@ -18,4 +19,29 @@ fn noop(_params: &Value) -> Value {
     let app = App::default();
     let _ = app.block_info();
     json!({ "result": "ok" })
+}
+
+
+/// cw3 threshold kernel on a concrete proposal: params {threshold, total_weight, votes:{yes,no,abstain,veto}, expires, status, block:{height,time}}
+fn cw3_kernel(p: &Value) -> Value {
+    use cosmwasm_std::{Addr, BlockInfo, Timestamp};
+    use cw3::{Proposal, Status, Votes};
+    use cw_utils::{Expiration, Threshold};
+    let threshold: Threshold = match serde_json::from_value(p["threshold"].clone()) { Ok(t) => t, Err(e) => return json!({"result": "bad_params", "error": e.to_string()}) };
+    let expires: Expiration = match serde_json::from_value(p["expires"].clone()) { Ok(t) => t, Err(e) => return json!({"result": "bad_params", "error": e.to_string()}) };
+    let status: Status = serde_json::from_value(p["status"].clone()).unwrap_or(Status::Open);
+    let u = |v: &Value| -> u64 { v.as_u64().or_else(|| v.as_str().and_then(|s| s.parse().ok())).unwrap_or(0) };
+    let votes = Votes { yes: u(&p["votes"]["yes"]), no: u(&p["votes"]["no"]), abstain: u(&p["votes"]["abstain"]), veto: u(&p["votes"]["veto"]) };
+    let prop = Proposal {
+        title: "t".into(), description: "d".into(), start_height: 1, expires, msgs: vec![], status, threshold,
+        total_weight: u(&p["total_weight"]), votes, proposer: Addr::unchecked("proposer"), deposit: None,
+    };
+    let block = BlockInfo { height: u(&p["block"]["height"]), time: Timestamp::from_nanos(u(&p["block"]["time"])), chain_id: "chain".into() };
+    let r = std::panic::catch_unwind(std::panic::AssertUnwindSafe(|| {
+        (prop.is_passed(&block), prop.is_rejected(&block), prop.current_status(&block))
+    }));
+    match r {
+        Ok((a, b, c)) => json!({"result": "ok", "is_passed": a, "is_rejected": b, "current_status": serde_json::to_value(c).unwrap()}),
+        Err(_) => json!({"result": "panic"}),
+    }
 }
